@@ -142,6 +142,11 @@ Check (C06_decision_reachable :
   (In (CallReject c t) os <-> dir_full L m lst = true \/ ok = false) /\
   (In (CallReject c t) os ->
    ins (fst (do_established L m p c t lst f)) = ins m /\ outs (fst (do_established L m p c t lst f)) = outs m)).
+Check (C06_established_answered_once :
+  forall L m g p c t (lst f : bool),
+  LedgerInv.Reach L m g -> LedgerInv.feas L m g (TrEstablished p c t lst f) ->
+  let os := snd (do_established L m p c t lst f) in
+  (In (CallAccept c t) os \/ In (CallReject c t) os) /\ ~ (In (CallAccept c t) os /\ In (CallReject c t) os)).
 Check (C06_not_connected_accepted :
   forall L m p c t (lst f : bool),
   (forall q, lookup c (pending m) = Some q -> q = p) ->
